@@ -961,6 +961,13 @@ func (f *framer) parsePreparedMetadata() preparedMetadata {
 
 	if f.proto >= protoVersion4 {
 		pkeyCount := f.readInt()
+		if pkeyCount < 0 {
+			panic(fmt.Errorf("received negative primary key count: %d", pkeyCount))
+		}
+		// every primary key index takes two bytes
+		if len(f.buf)/2 < pkeyCount {
+			panic(fmt.Errorf("not enough bytes in buffer to read %d primary key indexes got: %d", pkeyCount, len(f.buf)))
+		}
 		pkeys := make([]int, pkeyCount)
 		for i := 0; i < pkeyCount; i++ {
 			pkeys[i] = int(f.readShort())
